@@ -99,12 +99,29 @@ class Unknown:
         return 'Unknown(%s)' % self.why
 
 
+class SStr:
+    """A string of concrete length whose characters are concrete 1-char strs or symbolic decimal digits (SInt/int 0..9)."""
+    __slots__ = ('chars',)
+
+    def __init__(self, chars):
+        self.chars = list(chars)
+
+    def __len__(self):
+        return len(self.chars)
+
+    def __repr__(self):
+        return 'SStr(%s)' % ''.join(c if isinstance(c, str) else '?' for c in self.chars)
+
+    def sliced(self, sl):
+        return SStr(self.chars[sl])
+
+
 def is_sym(v):
     return isinstance(v, (SInt, SBool))
 
 
 def has_sym(v, depth=0):
-    if isinstance(v, (SInt, SBool)):
+    if isinstance(v, (SInt, SBool, SStr)):
         return True
     if isinstance(v, (tuple, list)) and depth < 6:
         for x in v:
@@ -585,10 +602,34 @@ def merge(c, a, b):
         return Unknown('merge', merge(c, ta, tb))
     if isinstance(a, (tuple, list)) and isinstance(b, (tuple, list)) and type(a) is type(b) and len(a) == len(b):
         return type(a)(merge(c, x, y) for x, y in zip(a, b))
+    if isinstance(a, SStr) or isinstance(b, SStr):
+        ca = a.chars if isinstance(a, SStr) else (list(a) if isinstance(a, str) else None)
+        cb = b.chars if isinstance(b, SStr) else (list(b) if isinstance(b, str) else None)
+        if ca is None or cb is None or len(ca) != len(cb):
+            raise Unmergeable()
+        out = []
+        for x, y in zip(ca, cb):
+            if isinstance(x, str) and isinstance(y, str):
+                if x != y:
+                    if x.isdigit() and y.isdigit():
+                        out.append(merge(c, int(x), int(y)))
+                        continue
+                    raise Unmergeable()
+                out.append(x)
+            elif isinstance(x, str) or isinstance(y, str):
+                s_, o_ = (x, y) if isinstance(x, str) else (y, x)
+                if not s_.isdigit():
+                    raise Unmergeable()
+                out.append(merge(c, int(x) if isinstance(x, str) else x, int(y) if isinstance(y, str) else y))
+            else:
+                out.append(merge(c, x, y))
+        return SStr(out)
     if isinstance(a, (SBool, bool)) and isinstance(b, (SBool, bool)):
         return mk_bool(z3.If(c, zb(a), zb(b)))
     if isinstance(a, (SInt, int, SBool)) and isinstance(b, (SInt, int, SBool)):
         (alo, ahi), (blo, bhi) = bounds(a), bounds(b)
+        if G.stats.get('_keep_concrete_ints') and type(a) is int and type(b) is int and a != b:
+            raise Unmergeable()      # harness option: paths that differ in a concrete integer (e.g. a decimal exponent) stay forked
         if G.ABSTRACT and not (isinstance(a, int) and isinstance(b, int) and a == b):
             # abstract mode: only values derived from the tracked state (precision) keep an exact ite; everything else
             # is joined to an Unknown (which is viewed as a fresh integer when used as one) so that terms stay small
